@@ -176,8 +176,10 @@ def build(verbose=False, gate=True):
         # evict old builds (keep the 4 most recent)
         ents = sorted((os.path.getmtime(os.path.join(BUILD, d)), d) for d in os.listdir(BUILD)
                       if os.path.isdir(os.path.join(BUILD, d)) and not d.startswith("verif-out-"))
-        for _, d in ents[:-4]:
-            shutil.rmtree(os.path.join(BUILD, d), ignore_errors=True)
+        # (never a build that was used in the last 15 minutes: another check may be running on it)
+        for mt, d in ents[:-4]:
+            if time.time() - mt > 900:
+                shutil.rmtree(os.path.join(BUILD, d), ignore_errors=True)
         return binp, bdir, {"cached": False, "key": key, "build_s": round(time.time() - t0, 1), "warnings": warns}
     finally:
         fcntl.flock(lock, fcntl.LOCK_UN)
